@@ -149,9 +149,41 @@ pub fn run_singles(args: &[String]) {
   emit(json!({"kind": "done"}));
 }
 
+/// `vharness c05 singles-corpus <file.jsonl>`: scalar dump (fields of Model/PMParams.v) of recorded C08 inputs {id, config, idler_waist_um,
+/// ws, wi}, for the setup and for its exchanged twin (idler singles are computed through the exchanged setup)
+pub fn run_singles_corpus(args: &[String]) {
+  let text = std::fs::read_to_string(args.first().map(|s| s.as_str()).unwrap_or("")).unwrap_or_default();
+  for line in text.lines() {
+    let e: Value = match serde_json::from_str(line) { Ok(v) => v, Err(_) => continue };
+    let cfg = e["config"].as_str().unwrap_or("").to_string();
+    let wi_um = e["idler_waist_um"].as_f64().unwrap_or(100.);
+    let hexf = |k: &str| f64::from_bits(u64::from_str_radix(e[k].as_str().unwrap_or("0x0").trim_start_matches("0x"), 16).unwrap_or(0));
+    let (os, oi) = (hexf("ws") * (RAD / S), hexf("wi") * (RAD / S));
+    let r = guarded(move || -> Result<SPDC, String> {
+      let mut s = SPDC::from_json(cfg).map_err(|e| e.to_string())?;
+      s.idler.set_waist(wi_um * 1e-6 * M);
+      s.assign_optimal_waist_positions();
+      Ok(s)
+    });
+    if let Ok(Ok(spdc)) = r {
+      let sw = spdc.clone().with_swapped_signal_idler();
+      let zs = [0.0];
+      let d = guarded(|| (dump_params(&spdc, os, oi, &zs), dump_params(&sw, oi, os, &zs),
+        *(phasematch_singles_fiber_coupling(os, oi, &spdc, Integrator::Simpson { divs: 200 }) / PerMeter3::new(1.)),
+        *(phasematch_singles_fiber_coupling(oi, os, &sw, Integrator::Simpson { divs: 200 }) / PerMeter3::new(1.))));
+      if let Ok((a, b, va, vb)) = d {
+        emit(json!({"kind": "corpus", "id": e["id"], "direct": a, "swapped": b, "singles_direct": fx(va), "singles_swapped": fx(vb)}));
+      }
+    }
+  }
+}
+
 pub fn run(args: &[String]) {
   if args.first().map(|s| s.as_str()) == Some("singles") {
     return run_singles(&args[1..]);
+  }
+  if args.first().map(|s| s.as_str()) == Some("singles-corpus") {
+    return run_singles_corpus(&args[1..]);
   }
   let seed = arg_u64(args, 0, 1);
   let n_pw = arg_u64(args, 1, 12) as usize;
